@@ -24,7 +24,7 @@ RULE = (
 
 INIT_LOG = []
 CLASS_NAMES = ["FlatA", "FlatB", "Top", "Mid", "Leaf", "Derived", "SVert", "EmptyReg", "NoBool", "Nester", "Resetter",
-               "SelfResetter"]
+               "SelfResetter", "Backend"]
 ARGS = [(), (1,), (2, 3), ("x",), (None,), ([1, 2],), (0,), (False,)]
 KWARGS = [{}, {"a": 1}, {"b": [1]}, {"a": None, "b": 2},
           # keyword names an implementation might use for its own parameters
@@ -74,6 +74,17 @@ def make_classes():
             INIT_LOG.append((type(self).__name__, id(self), args, dict(kwargs)))
             super().__init__()
 
+    class Backend(Base, metaclass=singleton.TrueSingleton):
+        """__new__ hands out an instance of an implementation subclass (as pathlib.Path() hands out a PosixPath)."""
+
+        def __new__(cls, *args, **kwargs):
+            if cls is Backend:
+                cls = BackendImpl
+            return super().__new__(cls)
+
+    class BackendImpl(Backend):
+        pass
+
     class Nester(Base, metaclass=singleton.TrueSingleton):
         """A singleton whose __init__ obtains another singleton (a service locating its registry)."""
 
@@ -98,7 +109,7 @@ def make_classes():
     # start from a clean table whatever ran before in this process
     singleton.clear_true_singleton()
     return {c.__name__: c for c in (FlatA, FlatB, Top, Mid, Leaf, Derived, SVert, EmptyReg, NoBool, Nester, Resetter,
-                                    SelfResetter)}
+                                    SelfResetter, Backend)}
 
 
 class _Ref:
@@ -159,7 +170,7 @@ def run_history(ops, keep_refs=True):
                 if any(obj is o for o in created):
                     viol("construct:cleared_instance_returned", f"{cname}() after a clear returned the instance from before the clear", k)
                     break
-                if type(obj) is not cls:
+                if not isinstance(obj, cls) or (type(obj) is not cls and cname != "Backend"):
                     viol("construct:wrong_type", f"{cname}() returned a {type(obj).__name__}", k)
                     break
                 want_init = 1
@@ -297,7 +308,7 @@ def prelude():
     ALL = {"op": "clear_all"}
     for a, b in (("FlatA", "FlatB"), ("Top", "Mid"), ("Mid", "Top"), ("Leaf", "Top"), ("Derived", "FlatA"), ("SVert", "Mid"), ("EmptyReg", "FlatA"), ("NoBool", "EmptyReg"),
                  ("Nester", "FlatA"), ("FlatA", "Nester"), ("Resetter", "FlatA"), ("FlatB", "Resetter"), ("SelfResetter", "Top"),
-                 ("Nester", "Resetter")):
+                 ("Nester", "Resetter"), ("Backend", "FlatA"), ("Top", "Backend")):
         out.append([N(a, 1), N(b, 2, 1), N(a, 3), C(a), N(a, 2), N(b), C(b), C(b), N(b, 1), ALL, N(a), N(b), C(a), ALL, ALL,
                     N(b, 4), N(a, 5, 2), C(b), N(a), N(b)])
         out.append([C(a), N(a, 7), ALL, C(a), N(a, 6), N(a, 1)])
